@@ -472,3 +472,16 @@ def validate_batch(ctx, module, traces, label=None, timeout=900, extra_cfg='', d
     ctx.add_tlc(res, label or module)
     ctx.validated += len(traces)
     return rejected
+
+
+def srepr(x, limit=300):
+    """repr() that cannot fail (objects produced by a broken library may not
+    even be printable)."""
+    try:
+        r = repr(x)
+    except Exception as e:
+        try:
+            r = '<unprintable %s: vars=%r (repr raised %r)>' % (type(x).__name__, vars(x), e)
+        except Exception:
+            r = '<unprintable %s>' % type(x).__name__
+    return r if len(r) <= limit else r[:limit] + '...'
